@@ -210,7 +210,8 @@ def gen_case(seed, tier, index=0):
                 # .license companions
                 d = posixpath.dirname(rng.pick(names))
                 st["faults"] = [rng.pick([{"op": "write", "path_glob": (d + "/*") if d else "*", "errno": "ENOSPC", "after": rng.pick([0, 7, 40])},
-                                          {"op": "write", "path_glob": (d + "/*") if d else "*", "errno": "EIO", "after": 0}])]
+                                          {"op": "write", "path_glob": (d + "/*") if d else "*", "errno": "EIO", "after": 0},
+                                          {"op": "open-w", "path_glob": (d + "/*") if d else "*", "errno": rng.pick(["EACCES", "EROFS", "EDQUOT"])}])]
             steps.append(st)
         elif k == "convert":
             st = mp(["convert-dep5"])
